@@ -700,13 +700,6 @@ def extra_checks(ctx):
     return core.run_subsuite(C05json, ctx)
 
 
-_signature_xmi = signature
-
-
-def signature(sc, msg):  # core.match_known hands sub-suite scenarios ({"suite", "scenario"}) to this module's signature
-    return C05json.signature(sc["scenario"], msg) if set(sc) == {"suite", "scenario"} else _signature_xmi(sc, msg)
-
-
 MANIFEST = {
     "level_text": "Machine-checked proof (Coq 8.16) over an executable model of the XMI reader (two passes, id-keyed dicts, "
                   "post-processing branch chain, offsets, views) and over the declarative denotation of abstract documents: the "
